@@ -12,8 +12,10 @@
 (*   fields / reldata: [type -> Seq(name)]; a missing type = no entry.        *)
 EXTENDS Integers, Sequences, FiniteSets, TLC
 
-\* t2 carries seventeen more attributes so that a selection can name more than eight, and more than sixteen, fields
-T2Extra == {"c1", "c2", "c3", "c4", "c5", "c6", "c7", "c8", "d1", "d2", "d3", "d4", "d5", "d6", "d7", "d8", "d9"}
+\* t2 carries many more attributes so that a selection can name more than eight, sixteen, thirty-two fields;
+\* "C1" differs from "c1" by its case only: two names, two attributes
+T2Extra == {"c1", "c2", "c3", "c4", "c5", "c6", "c7", "c8", "d1", "d2", "d3", "d4", "d5", "d6", "d7", "d8", "d9",
+            "C1", "e01", "e02", "e03", "e04", "e05", "e06", "e07", "e08", "e09", "e10", "e11", "e12", "e13", "e14"}
 AttrsOf(t) == IF t = "t1" THEN {"a", "n"} ELSE IF t = "t2" THEN {"b"} \cup T2Extra ELSE {}
 \* (t2 has a relationship "o" as well: the same name as t1's, on another type)
 RelsOf(t)  == IF t = "t1" THEN {"o", "m", "o2", "m2"} ELSE IF t = "t2" THEN {"p", "o"} ELSE {}
